@@ -471,6 +471,7 @@ def fault_ops(kind, keys, maxp):
     ops.append({"op": "extend", "pairs": [["z", maxp + 3], [keys[0], -3], ["y", 0]]})
     ops.append({"op": "extend", "pairs": [["z", maxp + 3], [keys[0], -3], ["y", 0]], "hint": [0, -1]})
     ops.append({"op": "convert"})
+    ops.append({"op": "clone_into", "to": 5})
     return ops
 
 
